@@ -420,7 +420,7 @@ int main(int argc, char** argv) {
     const bool thorough = vh::g.thorough();
     uint64_t idx = 0;
     std::vector<int> nffts = {8, 16, 32, 64, 128, 256, 512, 1024, 2048, 4096};
-    const int reps = thorough ? 40 : 10;
+    const int reps = thorough ? 400 : 24;
     for (int nfft : nffts) {
         for (int rep = 0; rep < reps; ++rep) {
             for (int cplx = 0; cplx < 2; ++cplx) {
